@@ -116,9 +116,24 @@ impl ObjectWriter for ObjectWriterFS {
                 }
             },
         };
-        let relative_path = content_location_path
-            .strip_prefix('/')
-            .unwrap_or(content_location_path);
+        let relative_path = content_location_path.trim_start_matches('/');
+        // The object must be written inside the destination folder
+        let is_inside = std::path::Path::new(relative_path).components().all(|c| {
+            matches!(
+                c,
+                std::path::Component::Normal(_) | std::path::Component::CurDir
+            )
+        });
+        if !is_inside {
+            log::error!(
+                "Content location {:?} is outside of the destination folder",
+                self.meta.content_location
+            );
+            return Err(FluteError::new(format!(
+                "Content location {:?} is outside of the destination folder",
+                self.meta.content_location
+            )));
+        }
         let destination = self.dest.join(relative_path);
         log::info!(
             "Create destination {:?} {:?} {:?}",
